@@ -642,6 +642,8 @@ impl FdsCase {
         };
         let new: Vec<i32> = open_fds().into_iter().filter(|fd| !before.contains(fd)).collect();
         let [r] = new[..] else { return Some(vec![format!("sigdirect signalfd-count {}", new.len())]) };
+        // have the interposed close(2) report calls on this descriptor (it only logs descriptors it knows)
+        simk::with_ring(rfd_b, |ring, _| ring.issued_fds.push(r));
         let _ = simk::drain_events();
         let waker = util::waker(998);
         let mut cx = Context::from_waker(&waker);
